@@ -42,7 +42,9 @@ RULE = ('dataset = 1..4 feature stores (kind in keypoints/descriptors/global_fea
         'optional API appends (mostly superseding packed names), handlers passed or not, listing through kapture_from_dir (0, 1 or n recorded images) or *_from_dir with image set None / empty / one / subset, matches optionally restricted by a pairs file (both name orders, repeats, strangers); reads = own '
         'dtype/dsize, wrong dsize, wrong dtype, missing image, a few files with a trailing partial element. '
         'append = 1..8 add_array_to_tar calls with repeated names and odd spellings on no / empty / populated archive, '
-        'through TarHandler or get_all_tar_handlers(mode a)+image_*_to_file, 1 or 2 sessions, reader after every append. '
+        'through TarHandler or get_all_tar_handlers(mode a)+image_*_to_file, 1..3 writer sessions, each closed or abandoned (never '
+        'closed, kept referenced, never used again) and then reclaimed (del + gc) at a drawn later point of the history (inside a '
+        'later session after its k-th append, after a later session ended) or never; reader after every event. '
         'kill sweep = one writer subprocess per k in 0..n, SIGKILL after the k-th reported append; one append per sweep is '
         '>= io.DEFAULT_BUFFER_SIZE bytes and not a multiple of 16 KiB. '
         'Non-trivial = a store with an archive holding >= 1 member, or an append case with >= 1 append; '
@@ -60,7 +62,12 @@ ASSUMPTIONS = ['image and type names contain no backslash, comma, "#" or leading
                'files were written; nothing is written THROUGH a link afterwards (that changes its siblings in a folder but '
                'not in an archive); dangling links, symlink chains and sparse members are not modelled',
                'a reader opens the archive after the append call has returned; a writer killed inside add_array_to_tar, '
-               'power loss / OS crash (no fsync is issued) and concurrent writers are outside the quantifier',
+               'power loss / OS crash (no fsync is issued) and two writers USED at the same time (an older handle appending or closing '
+               'after a newer one appended) are outside the quantifier; an un-closed writer that merely lingers and is reclaimed '
+               'later is inside',
+               'an archive without end-of-archive block (writer never closed, appends beyond the old padding) cannot be opened '
+               'for APPENDING again by tarfile (ReadError): readers are unaffected, the property does not speak of it; such a '
+               'history stops there (bucket reopen-refused)',
                'files whose size is not a multiple of the element size are not arrays: np.fromfile truncates, np.frombuffer '
                'raises; modelled and checked, but not judged by the oracle',
                'stale loose files next to an archive, and an archive read without handlers: modelled as the code does '
@@ -73,7 +80,9 @@ LEVEL_TEXT = ('Theorems in coq/Props/C12.v hold for every folder, member order a
               'the index of a packed folder equals the folder (lookup-extensional, same key set), every array reads identically '
               'through archive and directory, the listed image sets / pair sets agree (with and without the records_camera '
               'filter), append makes (n,b) visible and changes nothing else, header fields (mtime, mode, owner, pax) never matter, the latest version wins, a reader after k completed '
-              'appends sees exactly view(firstn k), monotone in k, close() adds nothing. The model is tied to the code by real '
+              'appends sees exactly view(firstn k), monotone in k, close() adds nothing; for every history of several writer handles '
+              '(closed, left un-closed, reclaimed at any later moment, killed) of which one is used at a time the archive is the base '
+              'followed by every completed append (a reclaimed handle writes nothing; a closing finaliser is refuted). The model is tied to the code by real '
               'datasets written by kapture writers, packed into tar files, loaded through get_all_tar_handlers/kapture_from_dir, '
               'and by a writer subprocess SIGKILLed after every k. Durability is partial: process kill only.')
 LEVEL_NOTE = ('proof (partial for durability): the model states that a completed append has handed all bytes to the OS (flush after '
@@ -414,11 +423,29 @@ def _gen_append(rng, mode):
             rows = -(-rng.choice([8192, 8200, 9000, 12345, 13001]) // row)
         ops.append([key(), _data(rng, dtype, dsize, rows=rows).hex(), spelling])
     sessions = [n_ops]
-    if mode == 'inproc' and n_ops >= 2 and rng.random() < 0.4:
-        cut = rng.randint(1, n_ops - 1)
-        sessions = [cut, n_ops - cut]
-    return {'kind': 'append', 'mode': mode, 'api': api, 'fkind': kind, 'ftype': rng.choice(TYPE_NAMES), 'dtype': dtype,
+    if mode == 'inproc' and n_ops >= 2 and rng.random() < 0.5:
+        parts = 2 if n_ops < 3 or rng.random() < 0.6 else 3
+        cuts = sorted(rng.sample(range(1, n_ops), parts - 1))
+        sessions = [b - a for a, b in zip([0] + cuts, cuts + [n_ops])]
+    case = {'kind': 'append', 'mode': mode, 'api': api, 'fkind': kind, 'ftype': rng.choice(TYPE_NAMES), 'dtype': dtype,
             'dsize': dsize, 'base': base, 'ops': ops, 'sessions': sessions, 'close_last': rng.random() < 0.7}
+    if mode == 'inproc':
+        # how every writer session ends: 'close', or 'abandon' = the handle is never closed ("even if the writer is never
+        # closed") and stays referenced while later sessions work; an abandoned handle is reclaimed (del + gc, what leaving a
+        # scope or interpreter exit do) at some later point of the history ('s', j, k = during session j after its k-th
+        # append; 'e', j = after session j has ended), or only after the last observation.  Abandoned handles are never USED
+        # again (that would be two concurrent writers).
+        ends = ['close' if rng.random() < 0.5 else 'abandon' for _ in sessions[:-1]] + ['close' if case['close_last'] else 'abandon']
+        if base is None and len(ends) > 1 and rng.random() < 0.8:
+            ends[0] = 'close'       # tarfile cannot re-open for appending a NEW archive whose only writer was never closed
+        drops = []
+        for i, e in enumerate(ends):
+            if e == 'abandon' and rng.random() < 0.85:
+                points = [['e', j] for j in range(i, len(sessions))]
+                points += [['s', j, k] for j in range(i + 1, len(sessions)) for k in range(sessions[j] + 1)]
+                drops.append([i] + rng.choice(points))
+        case['ends'], case['drops'] = ends, drops
+    return case
 
 
 def gen_cases(rng, tier):
@@ -865,7 +892,31 @@ def _prepare_archive(case, K, where):
     return path, root
 
 
+def _has_end_marker(path):
+    """Does the archive end with an end-of-archive (zero) block after its last member?  An archive whose writer was
+    never closed has none once the appended members have used up the padding of the archive they were appended to."""
+    try:
+        with tarfile.open(path, 'r') as t:
+            t.getmembers()
+            end = t.offset
+        with open(path, 'rb') as f:
+            f.seek(end)
+            block = f.read(512)
+        return len(block) == 512 and not any(block)
+    except (OSError, tarfile.TarError):
+        return False
+
+
+def _session_plan(case):
+    """(ends, drops) of an in-process append case; cases recorded before sessions could be abandoned have neither."""
+    ends = case.get('ends')
+    if ends is None:
+        ends = ['close'] * (len(case['sessions']) - 1) + ['close' if case.get('close_last', True) else 'abandon']
+    return ends, [list(d) for d in case.get('drops', [])]
+
+
 def _run_inproc(case, ctx):
+    import gc
     import numpy as np
     import kapture
     import kapture.io.csv as kcsv
@@ -873,24 +924,55 @@ def _run_inproc(case, ctx):
     K = _kinds()
     where = os.path.join(ctx['tmp'], 'ap')
     shutil.rmtree(where, ignore_errors=True)
+    ends, drops = _session_plan(case)
+    abandoned = {}             # session -> [collection or None, handler]: un-closed writer objects that are still referenced
     try:
         path, root = _prepare_archive(case, K, where)
         names = _op_names(case, K)
         k = K[case['fkind']]
-        sessions, pos = [], 0
+        sessions, pos, stopped = [], 0, None
+        base0 = _phys(path)
+        # the whole history, one reader observation after every event: [events done, what a fresh reader saw]
+        hist = {'base': None if base0 is None else [[a, h, _jpay(pay)] for a, h, pay in base0], 'events': [], 'obs': []}
+
+        def look(s, kk, ending):
+            seen = _reader_view(case, K, path, root)
+            s['obs'].append([kk, ending, seen])
+            hist['obs'].append([len(hist['events']), seen])
+
+        def reclaim(point, s, kk, ending):
+            for d in drops:
+                if d[1:] == point and d[0] in abandoned:
+                    abandoned.pop(d[0]).clear()            # the last reference goes away without close()
+                    gc.collect()
+                    hist['events'].append(['drop', d[0]])
+                    look(s, kk, ending)
+
         for si, n in enumerate(case['sessions']):
             base = _phys(path)
             s = {'base': None if base is None else [[a, h, _jpay(pay)] for a, h, pay in base], 'ops': [], 'obs': [], 'windex': [],
                  'error': None}
             th = h = None
             try:
-                if case['api'] == 'collection':
-                    th = kcsv.get_all_tar_handlers(root, mode={getattr(kapture, case['fkind']): 'a'})
-                    h = getattr(th, k['attr'])[case['ftype']]
-                else:
-                    h = TarHandler(path, 'a')
+                marker = base is None or _has_end_marker(path)
+                try:
+                    if case['api'] == 'collection':
+                        th = kcsv.get_all_tar_handlers(root, mode={getattr(kapture, case['fkind']): 'a'})
+                        h = getattr(th, k['attr'])[case['ftype']]
+                    else:
+                        h = TarHandler(path, 'a')
+                except tarfile.ReadError:
+                    if marker:
+                        raise
+                    # BOUNDARY (not part of the property, which speaks of readers): tarfile refuses to open for APPENDING an
+                    # archive that has no end-of-archive block, i.e. one left by a writer that was never closed (or killed)
+                    # after its appends used up the padding.  Readers are fine.  The history stops here.
+                    stopped = 'reopen-refused: no end-of-archive block (earlier writer never closed)'
+                    break
+                hist['events'].append(['open', si])
                 s['windex'].append([0, [x for x, m in h.content.items() if m.isfile() or m.islnk() or m.issym()]])
-                s['obs'].append([0, 'alive', _reader_view(case, K, path, root)])
+                look(s, 0, 'alive')
+                reclaim(['s', si, 0], s, 0, 'alive')
                 for j in range(pos, pos + n):
                     key, hx, _ = case['ops'][j]
                     arr = _arr(bytes.fromhex(hx), case['dtype'], case['dsize'])
@@ -899,12 +981,19 @@ def _run_inproc(case, ctx):
                     else:
                         h.add_array_to_tar(names[j], arr)
                     s['ops'].append([names[j], hx])
+                    hist['events'].append(['append', si, names[j], hx])
                     s['windex'].append([j - pos + 1, [x for x, m in h.content.items() if m.isfile() or m.islnk() or m.issym()]])
-                    s['obs'].append([j - pos + 1, 'alive', _reader_view(case, K, path, root)])
-                if si < len(case['sessions']) - 1 or case['close_last']:
+                    look(s, j - pos + 1, 'alive')
+                    reclaim(['s', si, j - pos + 1], s, j - pos + 1, 'alive')
+                if ends[si] == 'close':
                     (th or h).close()
                     th = h = None
-                    s['obs'].append([n, 'closed', _reader_view(case, K, path, root)])
+                    hist['events'].append(['close', si])
+                    look(s, n, 'closed')
+                else:
+                    abandoned[si] = [th, h]
+                    th = h = None
+                reclaim(['e', si], s, n, 'closed' if ends[si] == 'close' else 'alive')
             except Exception as e:
                 s['error'] = f'{type(e).__name__}: {e}'[:200]
             finally:
@@ -913,10 +1002,16 @@ def _run_inproc(case, ctx):
                         (th or h).close()
                     except Exception:
                         pass
+                th = h = None
             sessions.append(s)
             pos += n
-        return {'sessions': sessions, 'norm': _norm_table(sessions)}
+        multi = len(case['sessions']) > 1 or any(e == 'abandon' for e in ends[:-1]) or bool(drops)
+        return {'sessions': sessions, 'norm': _norm_table(sessions), 'history': hist if multi else None, 'stopped': stopped}
     finally:
+        for v in abandoned.values():
+            v.clear()
+        abandoned.clear()
+        gc.collect()
         shutil.rmtree(where, ignore_errors=True)
 
 
@@ -1077,6 +1172,22 @@ def _oracle_append(case, obs):
         if s['error']:
             return ('writer process failed or died before completing its appends' if case['mode'] == 'kill'
                     else 'appending through the API raised ' + s['error'].split(':')[0])
+    hist = obs.get('history')
+    if hist:
+        # the whole history: whatever happened to the writers (closed, left un-closed, reclaimed later), a reader sees the
+        # archive as it was before the first writer plus every append completed so far, latest version per name
+        base = [(n, list(pay.items())[0]) for n, _, pay in (hist['base'] or [])]
+        for done, seen in hist['obs']:
+            evs = hist['events'][:done]
+            apps = [(e[2], ('b', e[3])) for e in evs if e[0] == 'append']
+            if hist['base'] is None and not apps:
+                continue
+            how = 'right after an un-closed earlier writer was reclaimed' if evs and evs[-1][0] == 'drop' else 'several writer sessions'
+            if not seen['open']:
+                return f'reader cannot open the archive after completed appends ({how})'
+            if dict((n, hx) for n, hx in seen['items']) != _resolve(base + apps):
+                return f'a completed append is no longer visible / no longer the latest version under its name ({how})'
+    for s in obs['sessions']:
         base = [(n, list(pay.items())[0]) for n, _, pay in (s['base'] or [])]
         for k, ending, seen in s['obs']:
             exp = _resolve(base + [(n, ('b', hx)) for n, hx in s['ops'][:k]])
@@ -1197,6 +1308,15 @@ def encode(case, obs):
             norm, 'None' if s['base'] is None else kv.copt(_cmembers(s['base'])), _clog(s['ops']),
             kv.clist(kv.cpair(kv.cnat(k), E[e], _copened(seen)) for k, e, seen in s['obs']),
             kv.clist(kv.cpair(kv.cnat(k), kv.clist(kv.cstr(x) for x in keys)) for k, keys in s['windex'])))
+    hist = obs.get('history')
+    if hist and not any(s['error'] for s in obs['sessions']):
+        def cev(e):
+            if e[0] == 'append':
+                return '(HAppend %s %s %s)' % (kv.cnat(e[1]), kv.cstr(e[2]), _cb(e[3]))
+            return '(%s %s)' % ({'open': 'HOpen', 'close': 'HClose', 'drop': 'HDrop'}[e[0]], kv.cnat(e[1]))
+        out.append('CHistory {| hc_norm := %s; hc_base := %s; hc_events := %s; hc_obs := %s |}' % (
+            norm, 'None' if hist['base'] is None else kv.copt(_cmembers(hist['base'])), kv.clist(cev(e) for e in hist['events']),
+            kv.clist(kv.cpair(kv.cnat(d), _copened(seen)) for d, seen in hist['obs'])))
     return kv.clist(out)
 
 
@@ -1228,7 +1348,11 @@ def classify(case, obs):
     names = [json.dumps(o[0]) for o in case['ops']]
     return 'append/%s/%s/base=%s%s%s' % (
         case['mode'], case['api'], 'none' if case['base'] is None else ('empty' if not case['base']['members'] else 'members'),
-        '/repeats' if len(set(names)) < len(names) else '', '/2sessions' if len(case['sessions']) > 1 else '')
+        '/repeats' if len(set(names)) < len(names) else '',
+        ('/%dsessions' % len(case['sessions']) if len(case['sessions']) > 1 else '') +
+        ('/abandoned' if 'abandon' in (case.get('ends') or [])[:-1] else '') +
+        ('/reclaimed-later' if any(d[1] == 's' or d[2] > d[0] for d in case.get('drops', [])) else '') +
+        ('/reopen-refused' if (obs or {}).get('stopped') else ''))
 
 
 def describe(case, obs):
@@ -1243,7 +1367,7 @@ def describe(case, obs):
                 'observed_packed': [{'listing': o['listing'], 'reads': [r[:2] for r in o['reads']]}
                                     for o in obs.get('packed', {}).get('stores', [])][:2]}
     return {'kind': 'append', 'mode': case['mode'], 'api': case['api'], 'feature': case['fkind'], 'base': case['base'] and len(case['base']['members']),
-            'ops': [o[0] for o in case['ops']], 'sessions': case['sessions'],
+            'ops': [o[0] for o in case['ops']], 'sessions': case['sessions'], 'ends': case.get('ends'), 'drops': case.get('drops'),
             'observed': [[k, e, (sorted(n for n, _ in seen['items']) if seen['open'] else seen.get('exc'))]
                          for s in obs.get('sessions', []) for k, e, seen in s['obs']][:8]}
 
@@ -1304,11 +1428,29 @@ def shrink(case):
                 c['images'] = case['images'][:i] + case['images'][i + 1:]
                 yield c
     else:
+        if len(case['sessions']) > 1:
+            # drop one append but keep the sessions, how they end and when abandoned handles are reclaimed
+            start = 0
+            for j, n in enumerate(case['sessions']):
+                for i in range(start, start + n if n > 1 else start):
+                    c = dict(case)
+                    c['ops'] = case['ops'][:i] + case['ops'][i + 1:]
+                    c['sessions'] = case['sessions'][:j] + [n - 1] + case['sessions'][j + 1:]
+                    c['drops'] = [[d[0], 's', j, d[3] - 1] if d[1] == 's' and d[2] == j and d[3] > i - start else list(d)
+                                  for d in case.get('drops', [])]
+                    yield c
+                start += n
+            for i in range(len(case.get('drops', []))):
+                c = dict(case)
+                c['drops'] = case['drops'][:i] + case['drops'][i + 1:]
+                yield c
         if len(case['ops']) > 1:
             for i in range(len(case['ops'])):
                 c = dict(case)
                 c['ops'] = case['ops'][:i] + case['ops'][i + 1:]
                 c['sessions'] = [len(c['ops'])]
+                if 'ends' in case:
+                    c['ends'], c['drops'] = case['ends'][-1:], []
                 yield c
         if case['base'] and case['base']['members'] and not any(isinstance(m[1], dict) for m in case['base']['members']):
             for i in range(len(case['base']['members'])):
